@@ -7,7 +7,7 @@ from hypothesis import strategies as st
 from ..core import Clause, call, require
 from ..oracles import banks_ref as R
 from ..strategies import fragile_widths, round_linear_tri_specs, tame_threshold_case, threshold_configs, with_config, bank_specs, floats
-from .c05 import _thr, apply_warmup, bank_labels, build_or_discard, narrowed_specs, warmups
+from .c05 import check_triple, enum_triples, _thr, apply_warmup, bank_labels, build_or_discard, narrowed_specs, warmups
 
 PROPERTY = "C06"
 LEVEL = "exploration"
@@ -180,6 +180,10 @@ def _cases():
 
 def clauses(tier):
     return [
+        Clause("request_orders", check_triple,
+               "exhaustive: every ordered triple of requests (get_frequency_response / get_truncated_response, two filters, two or three widths) on one bank "
+               "object per bank class; the last answer must equal a fresh bank's. Non-trivial = three different requests",
+               None, enumerate=lambda tier: enum_triples(("freq", "half", "trunc")), enum_name="all_triples"),
         Clause("truncated", with_config(check_truncated),
                "one (bank, filter, width) per case: documented recipe applied to get_truncated_response vs get_frequency_response; start bin in [0, width); real banks within the half spectrum; finite. Non-trivial = complex filter whose truncated response wraps, or width < 16, or odd width",
                _cases, quick=2000, thorough=200000, fuzz_runs=2500),
